@@ -39,7 +39,7 @@ MANIFEST = {
         engine="BlockQuery",
         text="Exhaustive TLC exploration of specs/BlockQuery (GetBlock as HeaderLookup / CacheLookup / Submit / one "
              "Resp step per response / Verdict+cache put / Return, up to 3 consecutive calls) over response streams of "
-             "unbounded length from up to 3 peers over {requested block intact, other block, tx mutated, tx added, tx "
+             "unbounded length from up to 4 peers over {requested block intact, other block, tx mutated, tx added, tx "
              "removed, witness stripped, witness commitment forged, duplicate of the previous message, non-block}. "
              "EVERY transition is replayed against the real ChainService.GetBlock and its response closure (real block "
              "header store, REAL blocks with witness commitments and P2WPKH/P2PKH transactions, mutations such as the "
@@ -49,7 +49,7 @@ MANIFEST = {
              "commitment (recomputed by the harness' own code, not btcd's); invalid-under-requested-header responses "
              "ban their sender and never finish the request; other responses change neither bans nor cache; only the "
              "intact requested block is cached.",
-        note="Bounded: <=3 known blocks, <=3 peers, <=3 calls. Witness encoding only (the default); retry with other "
+        note="Bounded: <=3 known blocks, <=4 peers, <=3 calls. Witness encoding only (the default); retry with other "
              "peers itself is the dispatcher's job (C12) - here the Progress values that trigger it are checked. Trusts "
              "TLC and the harness' own merkle / witness-commitment code (cross-checked against btcd on the intact blocks).",
         design="4 C06", technique="TLA+ spec + TLC exhaustive + spec-to-code replay of every transition + TLC-judged observed traces"),
@@ -90,17 +90,17 @@ CONFIGS = {
         ("two-callers", fq(3, [2, 3], 2, ALLM, [0], range(1, 5), ["none", "rev"], [0], range(1, 4), P=[True]), (2000, 40)),
     ]),
     ("C06", "quick"): ("BlockQuery", SPEC_B, "TestVerifBlockQueryReplay", [
-        ("calls", dict(NB=2, NP=2, MaxCalls=2, MaxResp=0), None),
+        ("calls", dict(NB=2, NP=3, MaxCalls=2, MaxResp=0), None),
     ]),
     ("C06", "thorough"): ("BlockQuery", SPEC_B, "TestVerifBlockQueryReplay", [
-        ("calls", dict(NB=3, NP=3, MaxCalls=3, MaxResp=0), (5000, 40)),
+        ("calls", dict(NB=3, NP=4, MaxCalls=3, MaxResp=0), (5000, 40)),
     ]),
 }
 
 # free-running traces through the real query.WorkManager: (number of scenarios, share of peers that stay
 # silent after their script instead of disconnecting - each costs the dispatcher's 2 s+ job timeout)
-FREE = {("C05", "quick"): (48, 0.0), ("C05", "thorough"): (400, 0.05),
-        ("C06", "quick"): (48, 0.0), ("C06", "thorough"): (400, 0.05)}
+FREE = {("C05", "quick"): (64, 0.0), ("C05", "thorough"): (1000, 0.05),
+        ("C06", "quick"): (64, 0.0), ("C06", "thorough"): (1000, 0.05)}
 
 INVARIANTS = {"FilterQuery": ["TypeOK", "SingleFlight", "StoredCommitted"], "BlockQuery": ["TypeOK"]}
 
